@@ -10,7 +10,7 @@
 From Coq Require Import ZArith List String Bool Reals.
 From Flocq Require Import Core.
 From Hexital Require Import Base.Prelude Base.Num Model.Manager Model.Candle Model.Readings Model.Engine
-  Inst.RealInst Spec.Steppers Proofs.SpecGeneric Proofs.SpecReal Proofs.StructProofs Proofs.StochProofs Proofs.TsiProofs.
+  Inst.RealInst Spec.Steppers Proofs.SpecGeneric Proofs.SpecReal Proofs.StructProofs Proofs.StochProofs Proofs.TsiProofs Proofs.AdxProofs.
 Import ListNotations.
 Local Open Scope string_scope.
 Local Open Scope R_scope.
@@ -159,3 +159,16 @@ Print Assumptions C10_tsi_step_dominated.
 Theorem C10_tsi_ratio_range : forall s a : R, Rabs s <= a -> 0 < a -> -100 <= 100 * (s / a) <= 100.
 Proof. exact tsi_ratio_range. Qed.
 Print Assumptions C10_tsi_ratio_range.
+
+(* ADX = Wilder's average of DX = 100 |+DI - -DI| / (+DI + -DI): DX lies in [0,100], and
+   Wilder's recurrence keeps a reading in [0,100] when the previous reading and the new DX are *)
+Theorem C10_dx_range : forall dp dn : R, 0 <= dp -> 0 <= dn -> 0 < dp + dn -> 0 <= 100 * (Rabs (dp - dn) / (dp + dn)) <= 100.
+Proof. exact dx_range. Qed.
+Print Assumptions C10_dx_range.
+
+Theorem C10_adx_step_range :
+  forall (p nd : Z) (s : state ROps) (dx pr : R),
+  (0 < p)%Z -> (0 <= nd)%Z -> s_prev ROps s = Some pr -> 0 <= pr <= 100 -> 0 <= dx <= 100 ->
+  exists r s', rma_step ROps p nd s dx = Ok (VNum r, s') /\ 0 <= r <= 100.
+Proof. exact adx_step_range. Qed.
+Print Assumptions C10_adx_step_range.
